@@ -56,7 +56,7 @@ class RuleCtx:
         else:
             file, fn = where
         o = Obligation(rule, file, fn, ' '.join(str(construct).split()), bool(ok), why,
-                       int(line or 0), nontrivial, list(path or []))
+                       int(-(-(line or 0) // 1)), nontrivial, list(path or []))
         self.obligations.append(o)
         if file in self.prog.modules:
             self.prog.consulted.add(file)
